@@ -15,6 +15,7 @@
 //      handover.identity  payload, writer GUID, SN, source timestamp equal those of ONE DATA(FRAG) that carried n
 //      handover.complete  a sample whose data arrived while n was uncovered is handed over as soon as every
 //                         lower SN is covered (nothing received is lost or withheld)
+//      handover.nopanic   no take() panics, whatever was received (C06)
 // C03  acknack.base       base <= lowest uncovered SN
 //      acknack.mono       base never decreases during the match
 //      acknack.listed     every listed SN is uncovered and inside [first,last] of the HEARTBEAT last received
@@ -32,7 +33,7 @@
 //      acknack.addressee  reader_id / writer_id / INFO_DST of the reply name this reader and the writer whose
 //                         locator the reply was sent to
 //
-// Bound (one writer): alphabet FULL (168 operations) =
+// Bound (one writer): alphabet FULL (169 operations) =
 //     DATA(sn) sn in 1..=5;  UNUSABLE-DATA(sn, variant) sn in 1..=5 = a DATA that cannot be turned into a change
 //     (variant 0: no payload, no flags, no inline QoS; variant 1: payload with D and K flag both set): the model
 //     covers sn (its DATA has arrived, there is nothing to hand over), later samples must flow;
@@ -41,6 +42,10 @@
 //     GAP(start a, base b, bits subset of {b,b+1}) 1<=a<=b<=6;
 //     GAP-FROM-WIRE (8 forms, b<=3, numBits 1|2): a GAP serialized, all padding bits of its bitmap word set to 1, parsed by
 //     Message::read_from_buffer and handed to the reader: the model counts the numBits valid bits only;
+//     REMATCH: the writer is unmatched (remove_writer_proxy) and matched again with the same GUID (participant lost and found):
+//     a new match for the ACKNACK oracle (base / count / coverage start again), while for the application everything handed
+//     over stays handed over (at most once, increasing, no hole w.r.t. everything ever covered); also in the two-reader
+//     test and, to length 4 with three take() schedules, in xc_reader_rematch_nopanic;
 //     REANNOUNCED: Reader::update_writer_proxy again for the matched writer (SEDP re-send): no-op for the model, so ACKNACK
 //     counts and bases go on growing;
 //     HEARTBEAT(first f, last l, final?) 0<=f<=l+1<=6, l>=0; the HEARTBEAT count is the position in the sequence.
@@ -105,6 +110,8 @@ mod verif_xc_reader_path {
     BadQos(i64),        // DATA(writer_sn) with a value and an inline QoS whose PID_RELATED_SAMPLE_IDENTITY is 4 garbage bytes
     GapWire(i64, i64, u8, u8), // GAP(gap_start, gap_list.base, numBits 1|2, valid bits) serialized, every PADDING bit of the
                         // bitmap word (positions >= numBits, undefined on the wire) set to 1, and parsed back by the real parser
+    Rematch,            // the writer's participant is lost and found again: Reader::remove_writer_proxy, then matched again with the
+                        // same GUID / QoS (a NEW match for C03: fresh proxy; the application's C01 guarantees go on)
     Reannounce,         // Discovery announces the matched writer again: Reader::update_writer_proxy for the same GUID and QoS
     Preempt,            // the reader's periodic timer action Reader::send_preemptive_acknacks()
     Unusable(i64, u8),  // DATA(writer_sn) that cannot be turned into a change: 0 = no payload, no flags, no inline QoS;
@@ -124,6 +131,7 @@ mod verif_xc_reader_path {
         Op::BadQos(s) => write!(f, "w{}:DATA({},inline QoS with malformed related_sample_identity)", self.w, s),
         Op::Preempt => write!(f, "PREEMPTIVE-ACKNACK-TIMER"),
         Op::Reannounce => write!(f, "w{}:REANNOUNCED", self.w),
+        Op::Rematch => write!(f, "w{}:UNMATCHED+MATCHED-AGAIN", self.w),
         Op::GapWire(a, b, nbits, bits) => {
           let l: Vec<i64> = (0..nbits as i64).filter(|i| bits & (1 << i) != 0).map(|i| b + i).collect();
           write!(f, "w{}:GAP-FROM-WIRE(start={},base={},numBits={},list={:?},bitmap word={:#010x})", self.w, a, b, nbits, l, gap_wire_word(nbits, bits))
@@ -146,6 +154,7 @@ mod verif_xc_reader_path {
     for s in 1..=5 { v.push(Op::BadQos(s)); }
     v.push(Op::Preempt);
     v.push(Op::Reannounce);
+    v.push(Op::Rematch);
     for a in 1..=3 { for b in a..=3 { v.push(Op::GapWire(a, b, 1, 0)); } }
     v.push(Op::GapWire(2, 2, 1, 1));
     v.push(Op::GapWire(1, 2, 2, 0b01));
@@ -176,7 +185,8 @@ mod verif_xc_reader_path {
 
   #[derive(Clone, Debug)]
   struct Model {
-    covered: u32,                      // bit k: SN k received or declared unavailable (k in 1..=31)
+    covered: u32,                      // bit k: SN k received or declared unavailable (k in 1..=31) during the current match
+    ever: u32,                         // the same, during earlier matches of this writer (before a REMATCH)
     carried: Vec<(i64, usize, usize)>, // (sn, payload step, source timestamp step) of every complete sample that arrived
     due: u32,                          // SNs whose data arrived while uncovered: must be handed over
     handed: Vec<i64>,                  // SNs handed to the application, in order
@@ -189,17 +199,18 @@ mod verif_xc_reader_path {
   }
   impl Model {
     fn new() -> Self {
-      Model { covered: 0, carried: vec![], due: 0, handed: vec![], frags: [0; 32], prev_base: i64::MIN, prev_count: None, prev_kind_count: [None, None], advertised: None, hb_count_seen: 0 }
+      Model { covered: 0, ever: 0, carried: vec![], due: 0, handed: vec![], frags: [0; 32], prev_base: i64::MIN, prev_count: None, prev_kind_count: [None, None], advertised: None, hb_count_seen: 0 }
     }
     fn is_covered(&self, k: i64) -> bool { k < 1 || (k < 32 && self.covered & (1 << k) != 0) }
     fn cover(&mut self, k: i64) { if (1..32).contains(&k) { self.covered |= 1 << k; } }
+    fn was_ever_covered(&self, k: i64) -> bool { self.is_covered(k) || (k < 32 && self.ever & (1 << k) != 0) }
     fn lowest_uncovered(&self) -> i64 { (1..32).find(|k| !self.is_covered(*k)).unwrap() }
     fn lower_all_covered(&self, n: i64) -> bool { (1..n).all(|k| self.is_covered(k)) }
     fn partially_received(&self, k: i64) -> bool { (1..32).contains(&k) && !self.is_covered(k) && self.frags[k as usize] != 0 }
     fn missing_frags(&self, k: i64) -> Vec<u32> { (1..=FRAGS).filter(|f| self.frags[k as usize] & (1 << f) == 0).collect() }
     fn sample_arrived(&mut self, s: i64, pay_step: usize, ts_step: usize) {
       self.carried.push((s, pay_step, ts_step));
-      if !self.is_covered(s) { self.due |= 1 << s; }
+      if !self.was_ever_covered(s) { self.due |= 1 << s; }
       self.cover(s);
     }
     // returns whether the operation is a HEARTBEAT that has to be treated as new (not a duplicate)
@@ -208,6 +219,19 @@ mod verif_xc_reader_path {
         // a parameter of the inline QoS that cannot be parsed does not make the value unusable
         Op::Data(s) | Op::BadQos(s) => { self.sample_arrived(s, step, step); false }
         Op::Preempt | Op::Reannounce => false,
+        // A new match: the reader starts from scratch with this writer (what it requests and acknowledges refers to the new
+        // match only, and so does the promptness of the hand-over); what the application has been handed stays handed.
+        Op::Rematch => {
+          self.ever |= self.covered;
+          self.covered = 0;
+          self.due = 0;
+          self.prev_base = i64::MIN;
+          self.prev_count = None;
+          self.prev_kind_count = [None, None];
+          self.advertised = None;
+          self.hb_count_seen = 0;
+          false
+        }
         // only the numBits valid bits of the bitmap count, whatever the padding holds
         Op::GapWire(a, b, nbits, bits) => {
           for k in a..b { self.cover(k); }
@@ -496,6 +520,11 @@ mod verif_xc_reader_path {
         false
       }
       Op::Preempt => { reader.send_preemptive_acknacks(); false }
+      Op::Rematch => {
+        reader.remove_writer_proxy(w.guid);
+        reader.matched_writer_add(w.guid, EntityId::UNKNOWN, vec![w.locator.clone()], vec![], &w.qos);
+        false
+      }
       Op::Reannounce => { reader.matched_writer_add(w.guid, EntityId::UNKNOWN, vec![w.locator.clone()], vec![], &w.qos); false }
       Op::GapWire(a, b, nbits, bits) => {
         let mut gap_list = SequenceNumberSet::new(sn(b), nbits as u32);
@@ -583,7 +612,15 @@ mod verif_xc_reader_path {
 
   // (1) hand-over: drain the DataReader and compare with the models. `t` = operations fed so far.
   fn check_handover(t: &Tr, rig: &mut Rig, writers: &[Writer], models: &mut [Model]) {
-    let samples = rig.datareader.as_mut().unwrap().take(100, ReadCondition::any()).expect("take");
+    let taken = std::panic::catch_unwind(std::panic::AssertUnwindSafe(|| rig.datareader.as_mut().unwrap().take(100, ReadCondition::any())));
+    let samples = match taken {
+      Ok(r) => r.expect("take"),
+      Err(e) => {
+        // keep the damage local to this test: the participant (shared by the tests of this module) would die on the poisoned lock
+        rig.topic_cache.clear_poison();
+        panic!("XC-WITNESS label=handover.nopanic ops={:?}: take() of the reliable DataReader panicked (holding the topic cache lock): {}", t, panic_text(&e))
+      }
+    };
     for s in samples {
       let id = s.sample_info().sample_identity();
       let info_writer = s.sample_info().writer_guid();
@@ -608,7 +645,7 @@ mod verif_xc_reader_path {
         "XC-WITNESS label=handover.identity ops={:?} writer=w{}: sample {} handed over with payload {:?} / source timestamp {:?}; the DATA(FRAG)s for that sequence number carried {:?}",
         t, wi, n, value, src_ts, candidates.iter().map(|(pay, ts)| (sample_for(w.tag, n, *pay).b, source_ts(w.tag, *ts))).collect::<Vec<_>>());
       for k in 1..n {
-        assert!(m.is_covered(k),
+        assert!(m.was_ever_covered(k),
           "XC-WITNESS label=handover.nohole ops={:?} writer=w{}: sample {} handed over although {} was neither received nor declared unavailable (GAP / HEARTBEAT.first)", t, wi, n, k);
       }
       m.handed.push(n);
@@ -622,6 +659,10 @@ mod verif_xc_reader_path {
         }
       }
     }
+  }
+
+  fn panic_text(e: &Box<dyn std::any::Any + Send>) -> String {
+    e.downcast_ref::<String>().cloned().or_else(|| e.downcast_ref::<&str>().map(|s| s.to_string())).unwrap_or_else(|| "?".to_string())
   }
 
   // (2) replies: everything the reader sent during the last step
@@ -751,7 +792,7 @@ mod verif_xc_reader_path {
 
   fn len2_full(rig: &mut Rig) {
     let full = full_alphabet();
-    assert!(full.len() == 168);
+    assert!(full.len() == 169);
     let (mut n, a0, h0) = (0u64, rig.n_acknacks, rig.n_handed);
     for &a in &full {
       run(rig, &w0(&[a]));
@@ -1048,12 +1089,13 @@ mod verif_xc_reader_path {
 
     let mut steps: Vec<(Op, To)> = vec![];
     for &op in &ops { for &m in &modes { steps.push((op, m)); } }
+    steps.push((Op::Rematch, To::BothRelFirst)); // the writer's participant is lost and found again: re-matched at both readers
     let mut seqs: Vec<Vec<(Op, To)>> = vec![vec![]];
     let (mut n, mut n_be) = (0u64, 0u64);
     for len in 1..=4 {
       seqs = seqs.iter().flat_map(|q| steps.iter().map(move |x| { let mut v = q.clone(); v.push(*x); v })).collect();
       for q in &seqs {
-        if len == 4 && q.iter().any(|x| x.1 != To::BothRelFirst) { continue; }
+        if len == 4 && q.iter().any(|x| x.1 != To::BothRelFirst || x.0 == Op::Rematch) { continue; }
         let (mut reader, keep, writers) = rig.fresh();
         let w = &writers[0];
         be_reader.matched_writer_add(w.guid, EntityId::UNKNOWN, vec![], vec![], &be_qos);
@@ -1082,7 +1124,15 @@ mod verif_xc_reader_path {
           check_handover(&t, &mut rig, &writers, &mut models);
           if *to != To::BeOnly { check_replies(&t, &mut rig, &writers, &mut models, new_hb, claimed); } else { let _ = rig.drain_sockets(false); }
           // best-effort DataReader
-          for s in be_datareader.take(100, ReadCondition::any()).expect("take") {
+          let be_taken = std::panic::catch_unwind(std::panic::AssertUnwindSafe(|| be_datareader.take(100, ReadCondition::any())));
+          let be_samples = match be_taken {
+            Ok(r) => r.expect("take"),
+            Err(e) => {
+              rig.topic_cache.clear_poison();
+              panic!("XC-WITNESS label=handover.nopanic ops={:?}: take() of the best-effort DataReader panicked: {}", shown, panic_text(&e))
+            }
+          };
+          for s in be_samples {
             let k = i64::from(s.sample_info().sample_identity().sequence_number);
             let from_w = s.sample_info().writer_guid() == w.guid;
             let value = s.into_value().value();
@@ -1109,4 +1159,32 @@ mod verif_xc_reader_path {
   }
 
   thread_local! { static TWO_READERS_NOTE: std::cell::RefCell<String> = std::cell::RefCell::new(String::new()); }
+
+  // C06 / C01 around a writer that is unmatched and matched again (participant lost, then rediscovered): no take()
+  // panics (handover.nopanic), nothing is handed over twice or out of order, and the ACKNACK oracle holds within each
+  // match. Every sequence of length <= 4 over 10 operations, with take() after every step and with take() only at the end.
+  #[test]
+  fn xc_reader_rematch_nopanic() {
+    loopback_works();
+    let ops = [
+      Op::Data(1), Op::Data(2), Op::Data(3), Op::Gap(1, 2, 0), Op::Gap(2, 2, 1), Op::Unusable(1, 0),
+      Op::Hb(1, 3, false), Op::Hb(3, 3, true), Op::Reannounce, Op::Rematch,
+    ];
+    let mut rig = Rig::new("rematch", 1);
+    let (mut n, mut n_rematch) = (0u64, 0u64);
+    let mut seqs: Vec<Vec<Op>> = vec![vec![]];
+    for _len in 1..=4 {
+      seqs = seqs.iter().flat_map(|q| ops.iter().map(move |x| { let mut v = q.clone(); v.push(*x); v })).collect();
+      for q in &seqs {
+        if !q.contains(&Op::Rematch) { continue; } // the others are covered by the big enumerations
+        run(&mut rig, &w0(q));
+        run_takes(&mut rig, &w0(q), 0);
+        run_takes(&mut rig, &w0(q), 0b0101);
+        n += 3;
+        n_rematch += 1;
+      }
+    }
+    assert!(n_rematch > 3_000 && rig.n_handed > 3_000 && rig.n_acknacks > 3_000,
+      "vacuity guard: {} runs, {} sequences with a re-match, {} samples handed over, {} ACKNACKs", n, n_rematch, rig.n_handed, rig.n_acknacks);
+  }
 }
